@@ -876,6 +876,8 @@ def life_check(ctx, lifecycle=True):
             e = json.loads(x)
             if e.get("op") == "collected" and not e.get("ok"):
                 raise Inconclusive("baseline finaliser did not run within the GC window; lifecycle observation says nothing")
+            if e.get("note") == "starved":
+                raise Inconclusive("the machine was too loaded to schedule goroutines within the bounded waits (heartbeat starved); janitor observation says nothing")
     rejected, st = lib.validate_runs("Trace_CacheLife", runs, env={"PROP": "C15"}, timeout=1800)
     ctx.cov["traces_validated_against_impl"] += len(runs)
     ctx.cov["events_validated"] += st["events"]
